@@ -14,7 +14,7 @@ static const char * pool[10] = { "AAAA:Bb", "AAAA:Bb?", "AAAA[:Dd]:Ee", "AAAA:Ee
 static rp_pattern_t pool_rp[10];
 static const char * spell[] = {
     "AAAA:Bb", "aaaa:BB?", ":AAAA:Bb", "aaaa:ee", "AAAA:DD:EE", "Bb", "BB?", "Ee", "Dd:Ee", ":Ee", "Ff", ":FF", "AAAA:Ff",
-    "Cc1", "AAAA:CC23", "CC", "*XY", "*xy?", "ZZ", "AAAA:ZZ", "ZZ:YY", ":AAAA:Dd:Zz", "AAAA", "Ee?",
+    "Cc1", "AAAA:CC23", "CC", ":AAAA:Cc1234", "aaaa:cc00056", "*XY", "*xy?", "ZZ", "AAAA:ZZ", "ZZ:YY", ":AAAA:Dd:Zz", "AAAA", "Ee?",
 };
 #define NSPELL ((int) (sizeof spell / sizeof spell[0]))
 
@@ -30,15 +30,19 @@ static scpi_result_t handler(scpi_t * c) {
     tr_printf("H%d(%s)", (int) SCPI_CmdTag(c), eff);
     tr_printf("i%d%d", (int) SCPI_IsCmd(c, eff), (int) SCPI_IsCmd(c, "ZZ:QQ"));
     tr_printf("n%d,%d,%d;", nums[0], nums[1], nums[2]);
-    return SCPI_RES_OK;
+    /* handlers of the entries at even table positions fail without reporting an error of their own (-200): dispatch and
+     * the header path of the following unit must not depend on whether a handler succeeded */
+    return ((SCPI_CmdTag(c) / 100) % 2 == 0) ? SCPI_RES_ERR : SCPI_RES_OK;
 }
 
 static unsigned long long n_msgs = 0, n_units = 0, n_matched = 0, n_undefined = 0, n_composed = 0, n_shadowed = 0;
 
 /* reference interpreter: writes the expected trace into exp, returns number of -113 expected */
+static int nfail;
 static int ref_message(const int * units, int k, char * exp, size_t expsz, char undefined_hdr[][64]) {
     char path[128] = "";
     int u, nund = 0;
+    nfail = 0;
     size_t o = 0;
     int prev_common = 0;
     exp[0] = 0;
@@ -55,7 +59,8 @@ static int ref_message(const int * units, int k, char * exp, size_t expsz, char 
         }
         if (hit >= 0) {
             int nn = rp_count_numeric(&pool_rp[tab_ids[hit]]);
-            o += (size_t) snprintf(exp + o, expsz - o, "H%d(%s)i10n%ld,%ld,-7;", (int) table[hit].tag, eff, nn > 0 ? nums[0] : -7L, nn > 1 ? nums[1] : -7L);
+            o += (size_t) snprintf(exp + o, expsz - o, "H%d(%s)i10n%ld,%ld,-7;%s", (int) table[hit].tag, eff, nn > 0 ? nums[0] : -7L, nn > 1 ? nums[1] : -7L, ((table[hit].tag / 100) % 2 == 0) ? "E-200;" : "");
+            if ((table[hit].tag / 100) % 2 == 0) nfail++;
             n_matched++;
             if (second >= 0) n_shadowed++;
         } else {
@@ -106,12 +111,18 @@ static void run_message(const int * units, int k, int style) {
         mc_viol(why, "table {%s%s%s%s%s} message [%s]: trace [%s], reference [%s]", pool[tab_ids[0]], tab_n > 1 ? ", " : "", tab_n > 1 ? pool[tab_ids[1]] : "", tab_n > 2 ? ", " : "", tab_n > 2 ? pool[tab_ids[2]] : "", mc_e(msg, ml), mc_es(TR), mc_es(exp));
         return;
     }
-    if ((int) SCPI_ErrorCount(&T.ctx) != nund) { mc_viol("c02/error-count", "message [%s]: %d errors queued, %d undefined headers", mc_e(msg, ml), (int) SCPI_ErrorCount(&T.ctx), nund); return; }
+    if ((int) SCPI_ErrorCount(&T.ctx) != nund + nfail) { mc_viol("c02/error-count", "message [%s]: %d errors queued, %d undefined headers + %d failing handlers", mc_e(msg, ml), (int) SCPI_ErrorCount(&T.ctx), nund, nfail); return; }
 #if USE_DEVICE_DEPENDENT_ERROR_INFORMATION
-    for (i = 0; i < nund; i++) {
-        char info[300];
-        int code = tc_pop(&T, info, sizeof info);
-        if (code != SCPI_ERROR_UNDEFINED_HEADER || !strstr(info, und[i])) { mc_viol("c02/undefined-header-text", "message [%s]: error %d is %d with text [%s], expected -113 carrying [%s]", mc_e(msg, ml), i, code, mc_es(info), und[i]); return; }
+    {
+        int seen = 0, total = nund + nfail;
+        for (i = 0; i < total; i++) {
+            char info[300];
+            int code = tc_pop(&T, info, sizeof info);
+            if (code == SCPI_ERROR_EXECUTION_ERROR) continue;
+            if (code != SCPI_ERROR_UNDEFINED_HEADER || seen >= nund || !strstr(info, und[seen])) { mc_viol("c02/undefined-header-text", "message [%s]: queued error %d is %d with text [%s], expected -113 carrying [%s]", mc_e(msg, ml), i, code, mc_es(info), seen < nund ? und[seen] : "(none)"); return; }
+            seen++;
+        }
+        if (seen != nund) { mc_viol("c02/undefined-header-text", "message [%s]: %d of %d -113 errors found in the queue", mc_e(msg, ml), seen, nund); return; }
     }
 #else
     (void) i;
